@@ -648,8 +648,10 @@ where
     }
     fn refine(&mut self, a: &RefineArgs) -> String {
         let mut p = RefinementParameters::<S>::new();
+        let mut limit = AngleLimit::default();
         if let Some(b) = a.angle_deg_bits {
-            p = p.with_angle_limit(AngleLimit::from_deg(f64::from_bits(b)));
+            limit = AngleLimit::from_deg(f64::from_bits(b));
+            p = p.with_angle_limit(limit);
         }
         if let Some(b) = a.min_area_bits {
             p = p.with_min_required_area(S::from_b(b));
@@ -665,7 +667,12 @@ where
         }
         p = p.exclude_outer_faces(a.exclude);
         let r = self.t.refine(p);
-        let mut s = format!("refined {}", r.refinement_complete as u8);
+        // the ratio is printed through the public accessor (a parameter conversion, not a judgement)
+        let mut s = format!(
+            "refined {} d{:016x}",
+            r.refinement_complete as u8,
+            limit.radius_to_shortest_edge_limit().to_bits()
+        );
         for f in r.excluded_faces {
             let _ = write!(s, " {}", f.index());
         }
